@@ -53,6 +53,14 @@ def built_table(gravity: float, temp: float, n2: float = 0.0, h2s: float = 0.0, 
 
 def table(spec: str) -> pd.DataFrame:
     kind, _, arg = spec.partition(":")
+    if kind == "shifted":   # pseudopressure with another zero (the library's own rescale_pseudopressure): negative below 2000 psi
+        from bluebonnet.flow import rescale_pseudopressure  # noqa: PLC0415
+
+        t = table(arg)
+        hi = float(np.sort(np.asarray(t["pressure"], dtype=float))[-1])
+        return rescale_pseudopressure(t, 2000.0, min(8000.0, hi))
+    if kind == "desc":   # the same table listed from high to low pressure (FlowProperties accepts any row order)
+        return table(arg).iloc[::-1].reset_index(drop=True)
     if kind == "pvt_gas":
         return rdrv.shipped_table("pvt_gas")
     if kind == "haynesville":
@@ -70,6 +78,8 @@ def table(spec: str) -> pd.DataFrame:
 
 
 def is_consistent_family(spec: str) -> bool:
+    if spec.startswith("desc:"):
+        spec = spec[5:]
     return spec.split(":")[0] in ("synth_z",)
 
 
@@ -90,6 +100,10 @@ def make_grid(style: str, nt: int, tend: float, rng) -> np.ndarray:
     if style == "drift":  # every increment a few parts per million longer than the last
         d = (tend / nt) * (1 + 4e-6) ** np.arange(nt - 1)
         return np.concatenate([[0.0], np.cumsum(d)])
+    if style == "dupes":  # non-decreasing with repeated time stamps (two series glued at a shared end point, a tripled point)
+        g = np.linspace(0, math.sqrt(tend), max(3, nt - 3)) ** 2
+        k = len(g) // 3
+        return np.concatenate([g[: k + 1], [g[k]], g[k + 1: 2 * k + 1], [g[2 * k], g[2 * k]], g[2 * k + 1:]])
     if style == "nearuniform":  # increments that differ by a few parts per billion (second differences ~1e-11)
         d = (tend / nt) * (1 + 3e-9 * np.arange(nt - 1))
         return np.concatenate([[0.0], np.cumsum(d)])
@@ -150,8 +164,17 @@ def step_backward_error(fp, kind: str, m_i: float, dt: float, prev: np.ndarray, 
     bf = np.array(prev, dtype=float) if kind == "ideal" else np.minimum(prev, m_i)
     if kind == "ideal":
         a = np.ones(nx)
-    else:  # scaled diffusivity of the *fluid the caller supplied* at the previous profile (never read from the object)
-        a = np.asarray(fp.alpha(bf), dtype=float) / float(fp.alpha(m_i))
+    else:
+        # scaled diffusivity of the *fluid table the caller supplied* at the previous profile: the clipped piecewise-linear
+        # lookup of Scheme.tla (AlphaAt = InterpFill(nodes, alpha, m, min alpha, max alpha)) evaluated by the harness itself
+        # on the wrapper's columns -- never the object's method, never the wrapper's own interpolator
+        ms = np.asarray(fp.pvt_props["m-scaled"], dtype=float)
+        al = np.asarray(fp.pvt_props["alpha"], dtype=float)
+        ok = np.isfinite(ms) & np.isfinite(al)
+        o = np.argsort(ms[ok])
+        xs, ys = ms[ok][o], al[ok][o]
+        lo, hi = float(np.nanmin(al)), float(np.nanmax(al))
+        a = np.interp(bf, xs, ys, left=lo, right=hi) / float(np.interp(m_i, xs, ys, left=lo, right=hi))
     k = [r * Fraction(float(x)) for x in a]
     b = [Fraction(float(x)) for x in bf]
     v = [Fraction(float(x)) for x in new]
@@ -217,9 +240,17 @@ def run_config(cfg: dict, tid: int, max_levels: int = 400, want_residual: bool =
     obj, fp, tab = build_object(cfg)
     kind = cfg["kind"]
     time = make_grid(cfg["grid"], cfg["nt"], cfg["tend"], rng) + cfg.get("shift", 0.0)
-    pmin = float(np.asarray(tab["pressure"])[1])
+    pmin = float(np.sort(np.asarray(tab["pressure"], dtype=float))[1])
     sched = make_schedule(cfg.get("sched", "none"), len(time), cfg["pf"], cfg["pi"], max(pmin, 0.05 * cfg["pf"]), rng) \
         if kind == "single" else None
+    if cfg.get("repress"):
+        # the object was built and used with another pressure pair; the caller then assigns the public dataclass fields
+        obj.pressure_fracface, obj.pressure_initial = cfg["repress"]
+        with warnings.catch_warnings():
+            warnings.simplefilter("ignore")
+            obj.simulate(np.linspace(0, 1.0, 6) ** 2)
+            obj.recovery_factor()
+        obj.pressure_fracface, obj.pressure_initial = cfg["pf"], cfg["pi"]
     if cfg.get("prelude"):
         # the same object first runs another simulation with another fluid table and grid; then the caller assigns the
         # fluid of this configuration (a public dataclass field) and simulates again
@@ -295,6 +326,8 @@ def rf_events(cfg, tid, seq0, obj, fp, tab, time, sched, ladder_nx: int | None =
             # range the run can visit (the shipped Haynesville table holds Z = 5.0 rows above 12290 psi)
             pp = np.asarray(tab["pressure"], dtype=float)
             dd = np.asarray(tab["density"], dtype=float)
+            _o = np.argsort(pp)
+            pp, dd = pp[_o], dd[_o]
             lo_p = float(np.min(sched)) if sched is not None else float(cfg["pf"])
             a = max(0, int(np.searchsorted(pp, lo_p, side="right")) - 1)
             b = min(len(pp) - 1, int(np.searchsorted(pp, cfg["pi"], side="left")))
@@ -312,12 +345,14 @@ def rf_events(cfg, tid, seq0, obj, fp, tab, time, sched, ladder_nx: int | None =
     if kind == "single" and has_density:
         p = np.asarray(tab["pressure"], dtype=float)
         d = np.asarray(tab["density"], dtype=float)
+        _o = np.argsort(p)
+        p, d = p[_o], d[_o]
         pf_min = float(np.min(sched)) if sched is not None else float(cfg["pf"])
         rho_f = float(np.interp(pf_min, p, d))
         rho_i = float(np.interp(cfg["pi"], p, d))
         ceiling = 1 - rho_f / rho_i
         # the table's own inconsistency between the two lookups of density (in m-scaled vs in pressure)
-        ms = np.asarray(fp.pvt_props["m-scaled"], dtype=float)
+        ms = np.asarray(fp.pvt_props["m-scaled"], dtype=float)[_o]
         ok = np.isfinite(ms)
         rho_f_m = float(np.interp(float(fp.m_scaled_func(pf_min)), ms[ok], d[ok]))
         eps_table = abs(rho_f_m - rho_f) / rho_i
